@@ -92,6 +92,16 @@ structure Ext where
   sendOk : Bool
 deriving Repr, Inhabited
 
+/-- the `transport` string of a configured subnet entry (`Subnet.Transport`, toml `transport`) -/
+inductive TLabel
+  | unset                 -- the field is absent / empty
+  | named (t : Nat)       -- `"<Name>_Transport"` for pb.TransportType `t` (1 = `Min_Transport`, 4 = `Prefix_Transport`)
+  | unknown               -- a string that names no transport
+deriving DecidableEq, Repr, Inhabited
+
+/-- one configured subnet entry (`regprocessor.Subnet`): the same type serves `override_subnet` and
+`excluded_subnet_from_overrides`, so an exclusion entry carries a transport label, weight, port and prefix id
+as well -/
 structure Subnet where
   isV4 : Bool
   base : Nat
@@ -100,6 +110,8 @@ structure Subnet where
   port : Nat := 0
   /-- `prefix.TryFromID (PrefixId)`: id, prefix bytes, flush policy -/
   pfx : Option (Int × String × Int) := none
+  /-- `Transport`: the constructor splits the override subnets by it; on an exclusion entry it is carried along -/
+  label : TLabel := .unset
 deriving DecidableEq, Repr, Inhabited
 
 structure Cfg where
@@ -163,15 +175,23 @@ deriving Repr, Inhabited
 def randAddr (s : Subnet) (hostDraw : Nat) : Option Nat :=
   if s.isV4 then some (s.base + hostDraw % s.hosts) else none
 
-/-- the exclusion loop: is the IPv4 address currently in the response (nil: none) inside an excluded subnet? -/
-def excluded (cfg : Cfg) (cur : Option Nat) : Bool :=
-  cfg.exclusions.any (fun e => match cur with | some a => e.contains a | none => false)
+/-- one turn of the exclusion loop of `processBdReq`: does the entry `e` keep a registration of transport
+`t`, whose response currently carries the IPv4 address `a`, from being overridden?  The turn has the whole
+entry and the registration's transport at hand (`subnet.Transport`, `.Weight`, `.Port`, `.PrefixId`,
+`transportType` are all in scope there); the code tests the network only (`// TODO: apply exclusions based on
+both transport and subnet`): every entry protects every registration, whatever the entry's other fields say. -/
+def Subnet.excludes (e : Subnet) (_t : Nat) (a : Nat) : Bool := e.contains a
+
+/-- the exclusion loop: is the IPv4 address currently in the response (nil: none) of a registration of
+transport `t` protected by an entry of the exclusion list? -/
+def excluded (cfg : Cfg) (t : Nat) (cur : Option Nat) : Bool :=
+  cfg.exclusions.any (fun e => match cur with | some a => e.excludes t a | none => false)
 
 /-- the subnet-override tail of `processBdReq` (`if p.enforceSubnetOverrides { … }`) -/
 def subnetOverride (cfg : Cfg) (req : Req) (ext : Ext) (h : Heap) : Heap :=
   if !cfg.enforce then h else
   -- exclusions are tested against the IPv4 address currently in the response
-  if excluded cfg (h.get h.rp).v4 then h else
+  if excluded cfg req.transport (h.get h.rp).v4 then h else
   if req.transport == 1 then
     if ext.pctDraw < cfg.pctMin then
       match choose (cfg.minSubnets.map (·.weight)) ext.uNum ext.uDen with
